@@ -312,10 +312,10 @@ def gen_pair(rng, stream):
         a = gen_smooth(rng)
         b = gen_smooth(rng, near=centre(a)) if rng.random() < 0.6 else gen_poly(rng, "G", near=centre(a))
         return (a, b) if rng.random() < 0.5 else (b, a)
-    if stream == "G" and rng.random() < 0.2:
+    if stream == "G" and rng.random() < 0.3:
         # both shapes at the same end of the declared size range (feature sizes ~1e-2 or ~1e2): absolute thresholds
         # of the polytope bookkeeping (areas, squared lengths) act differently there than at unit scale
-        sc = rng.choice([0.01, 0.01, 0.012, 0.02, 50.0, 80.0])
+        sc = rng.choice([0.01, 0.01, 0.01, 0.012, 0.015, 0.02, 50.0, 80.0])
         a = gen_poly(rng, "G", scale=sc)
         b = gen_poly(rng, "G", near=centre(a), scale=sc)
         return a, b
